@@ -29,7 +29,7 @@ impl Prop for C16 {
     type Case = Case;
     const ID: &'static str = "C16";
     const FUZZ_TARGET: Option<&'static str> = Some("windows_tile");
-    const FUZZ_RUNS: u64 = 3000000;
+    const FUZZ_RUNS: u64 = 6000000;
     fn fuzz_decode(bytes: &[u8]) -> Option<Case> {
         crate::fuzzdec::c16(bytes)
     }
